@@ -1227,3 +1227,37 @@ def lower16(ctx) -> List[Ob]:
             else:
                 out.append(ok("LOWER-16", f.qualname, key, ctx.where(f, c), "non-empty display / padded" if v else "statements of the arm's region (non-empty: every arm holds a block that emits, fills included)"))
     return out
+
+
+# ------------------------------------------------------------------ LOWER-17
+
+# what the lowering may build itself: temporaries (Name / Assign with their contexts), the re-association of
+# and/or chains, the implicit return, statement wrappers around a kept test, and parsed templates
+_FRONT_BUILDS = {"Name", "Assign", "Load", "Store", "BoolOp", "And", "Or", "Del", "Return", "Expr", "Constant", "parse", "unparse", "dump", "fix_missing_locations", "copy_location", "Pass", "Module"}
+
+
+@rule("LOWER-17", 5, "the lowering keeps the user's expressions: the only syntax nodes the front end builds itself are temporaries, the re-association of and/or chains, the implicit return and parsed templates - it never builds comparisons, unary / binary operations or calls in place of the user's")
+def lower17(ctx) -> List[Ob]:
+    out: List[Ob] = []
+    mod = ctx.prog.module("ast_transforms")
+    front = ctx.prog.cls(FRONT)
+    fns = [f for f in ctx.prog.functions if f.module is mod and (f.cls is front or f.cls is ctx.prog.classes.get("ASTCFG") or f.cls is ctx.prog.classes.get("WritableASTBlock") or (f.cls is None and f.parent_fn is None and not f.name.startswith("SCFG2AST")))]
+    back = ctx.prog.classes.get(BACK)
+    for f in fns:
+        if back is not None and f.cls is back:
+            continue
+        for n in A.walk_no_nested(f.node):
+            if isinstance(n, ast.Call):
+                d = A.dotted(n.func) or ""
+                if d.startswith("ast.") and d.count(".") == 1:
+                    what = d.split(".")[1]
+                    key = f"builds ast.{what}"
+                    if what in _FRONT_BUILDS or not what[:1].isupper():
+                        out.append(ok("LOWER-17", f.qualname, key, ctx.where(f, n), "temporary / re-association / template", nontrivial=False))
+                    else:
+                        out.append(bad("LOWER-17", f.qualname, key, ctx.where(f, n), f"the front end builds an ast.{what} node of its own ({A.unparse(n)[:60]}): it replaces an expression of the user by one it considers equivalent (a complemented comparison is not, for unordered operands; an unchained comparison evaluates its middle operand at another time)"))
+    # operator tables (`{ast.Lt: ast.GtE, ..}`) at module level of the front end are the same thing in data form
+    for name, val in mod.constants.items():
+        if isinstance(val, ast.Dict) and val.keys and all(k is not None and (A.dotted(k) or "").startswith("ast.") for k in val.keys) and all((A.dotted(v) or "").startswith("ast.") for v in val.values):
+            out.append(bad("LOWER-17", "<module>", f"operator table {name}", f"{mod.relpath}:{A.lineno(val)}", f"module-level table {name} maps syntax node classes to other syntax node classes: the lowering rewrites the user's operators"))
+    return out
